@@ -442,7 +442,7 @@ def nativeCall (sub : SubRun) (g : G) (c : Nat) (name : String) (selfTag selfAdd
          let sorted := sortF (name == "Array.kh") nums
          let total := (sorted.take pick.toNat).foldl (· + ·) 0.0
          (g, .ok (if allInt then .int (floatToInt total) else .float total))
-       | _ => (g, .panic "MustReadInt@funcArrayKeep"))
+       | _ => (g, .err (if name == "Array.kh" then "(arr.kh)类型错误: 参数必须为int" else "(arr.kl)类型错误: 参数必须为int")))
     else if name == "Array.sum" then
       let (nums, allInt) := floatKeep g.heap selfAddr
       let total := nums.foldl (· + ·) 0.0
@@ -452,14 +452,14 @@ def nativeCall (sub : SubRun) (g : G) (c : Nat) (name : String) (selfTag selfAdd
       let (g', l') := shuffleList g l
       ({ g' with heap := g'.heap.setArr selfAddr l' }, .ok (.arr selfAddr))
     else if name == "Array.rand" then
+      if l.isEmpty then (g, .err "(arr.rand)值错误: 数组为空") else
       let (g', j) := randIntn g l.length
-      if j < 0 || j ≥ l.length then (g', .panic "index out of range@funcArrayRand")
-      else (g', .ok (l.getD j.toNat .null))
+      (g', .ok (l.getD j.toNat .null))
     else if name == "Array.randSize" then
       let (g', l') := shuffleList g l
       (match p0 with
        | .int n =>
-         if n < 0 || n > l'.length then (g', .panic "slice bounds out of range@funcArrayRandSize")
+         if n < 0 || n > l'.length then (g', .err "(arr.randSize)值错误: 个数超出数组长度范围")
          else
            let (h', addr) := g'.heap.alloc (.arr (l'.take n.toNat))
            ({ g' with heap := h' }, .ok (.arr addr))
